@@ -140,6 +140,9 @@ def step (st : St) : List String → St × String
     | some cut =>
       ({ st with saved := some st.buckets, buckets := st.buckets.map (fun x => (x.1, if x.1 == 0 then x.2.crashReopen cut else x.2.reopen)) }, "ok")
     | none => (st, "bad-op")
+  | ["idxcut", "newseg", variant] =>
+    ({ st with saved := some st.buckets,
+               buckets := st.buckets.map (fun x => (x.1, if variant.startsWith "zero-file" then x.2.reopenBlankNext else x.2.reopen)) }, "ok")
   | "idxcut" :: _ => ({ st with saved := some st.buckets, buckets := st.buckets.map (fun x => (x.1, x.2.reopen)) }, "ok")
   | ["restore"] => match st.saved with
     | some bs => ({ st with buckets := bs, saved := none }, "ok")
